@@ -73,6 +73,7 @@ pub fn fork_case(timeout_ms: i32, f: impl FnOnce() -> Value) -> ChildEnd {
         let v = f();
         let s = serde_json::to_vec(&v).unwrap_or_default();
         write_all_fd(fds[1], &s);
+        flush_coverage();
         unsafe { libc::_exit(0) };
     }
     unsafe { libc::close(fds[1]) };
@@ -179,6 +180,7 @@ pub fn fork_stream(timeout_ms: i32, f: impl FnOnce(i32)) -> (Vec<Value>, End) {
         unsafe { libc::close(fds[0]) };
         normalise_signals();
         f(fds[1]);
+        flush_coverage();
         unsafe { libc::_exit(0) };
     }
     unsafe { libc::close(fds[1]) };
@@ -323,5 +325,17 @@ pub fn install_segv_probe() {
         sa.sa_sigaction = segv_probe as usize;
         sa.sa_flags = libc::SA_SIGINFO | libc::SA_NODEFER;
         libc::sigaction(libc::SIGSEGV, &sa, std::ptr::null_mut());
+    }
+}
+
+/// Coverage builds only (tools/coverage.sh, `--cfg sigverif_cov`): children leave through `_exit`,
+/// which skips the profile runtime's atexit hook.
+pub fn flush_coverage() {
+    #[cfg(sigverif_cov)]
+    unsafe {
+        extern "C" {
+            fn __llvm_profile_write_file() -> libc::c_int;
+        }
+        __llvm_profile_write_file();
     }
 }
